@@ -52,6 +52,16 @@ Lemma cf_rf n s : run_finished (cont_finished s n) = run_finished s. Proof. appl
 Lemma cf_alive n s : alive (cont_finished s n) = alive s. Proof. apply (scal_of_fields _ _ (scal_cont_finished n s)). Qed.
 Lemma cf_pe n s : pending_exit (cont_finished s n) = pending_exit s. Proof. apply (scal_of_fields _ _ (scal_cont_finished n s)). Qed.
 
+(** Continuous.close(): at most one `False` publication before the item is closed *)
+Lemma close_cont_eq s :
+  close_cont s = publish (set_cont_closed s true) PEndCont \/
+  close_cont s = publish (set_cont_closed (publish s (PCont false)) true) PEndCont.
+Proof.
+  unfold close_cont, cont_off_events. destruct (cont_plugins s); [left | right]; destruct s; reflexivity.
+Qed.
+
+Ltac cc_cases s := let E := fresh "Ecc" in destruct (close_cont_eq (release s)) as [E|E]; rewrite E; clear E.
+
 (** ---- per-task predicates ---- *)
 Definition TQ (Q : call -> pc -> Prop) (ts : ttab) : Prop :=
   forall t c p, find_task ts t = Some (c, p) -> Q c p.
@@ -275,10 +285,11 @@ Proof.
       * apply of_put.
       * put_entry. qc_tac.
   - (* Closed *)
-    apply (CI_build s _ t); auto; fsimpl; try congruence; try discriminate; try incl_tac.
-    + apply (ci_sev _ HC).
-    + eapply of_trans; [apply of_rel | apply of_remove].
-    + intros c0 p0. rewrite find_remove_eq. discriminate.
+    cc_cases s;
+    (apply (CI_build s _ t); auto; fsimpl; try congruence; try discriminate; try incl_tac;
+     [ apply (ci_sev _ HC)
+     | eapply of_trans; [apply of_rel | apply of_remove]
+     | intros c0 p0; rewrite find_remove_eq; discriminate ]).
 Qed.
 
 Ltac ci_side := try (intros; congruence); try (intros; discriminate); try incl_tac.
@@ -646,7 +657,7 @@ Proof.
     destruct (runt s) eqn:Er; auto. destruct c; simpl in Hc; try discriminate.
     unfold close_enter_closed. hstep s t HC.
   - (* C_G3 *) specialize (Hncr ltac:(discriminate)). hstep s t HC.
-  - (* C_G4 *) specialize (Hncr ltac:(discriminate)). hstep s t HC.
+  - (* C_G4 *) specialize (Hncr ltac:(discriminate)). cc_cases s; hstep s t HC.
   - (* P_WaitRunFinished *)
     destruct (run_finished s) as [[|]|]; auto.
     assert (Hnh : holder s <> Some t) by (eapply unlocked_not_holder; eauto).
@@ -835,7 +846,7 @@ Lemma SO_close_trigger s t :
 Proof.
   intros Hin. unfold close_trigger. destruct (st_fsm s) eqn:Efs; try (left; quiet_tac; fail).
   - destruct (runt s); left; quiet_tac.
-  - right. left. split; auto. unfold RetsClose. ext_tac. fsimpl. repeat split; auto.
+  - right. left. split; auto. cc_cases s; (unfold RetsClose; ext_tac; fsimpl; repeat split; simpl; auto 8).
 Qed.
 
 Lemma SO_enter_close s t :
@@ -972,8 +983,8 @@ Proof.
   - (* C_WaitRunTask *) destruct (runt s); left; [apply Quiet_refl; reflexivity | quiet_tac].
   - (* C_G4 *)
     destruct c; simpl in Hc; try discriminate. right. left. split; auto.
-    unfold RetsClose. ext_tac. fsimpl.
-    destruct (st_fsm s); try discriminate. repeat split; auto.
+    cc_cases s; (unfold RetsClose; ext_tac; fsimpl;
+                 destruct (st_fsm s); try discriminate; repeat split; simpl; auto 8).
   - (* P_WaitRunFinished *)
     destruct (run_finished s) as [[|]|]; try (left; apply Quiet_refl; reflexivity).
     destruct c; simpl in Hc; try discriminate; right; right; (split; [discriminate|]); eexists; ext_tac.
@@ -1848,7 +1859,7 @@ Lemma own_close_trigger s t :
 Proof.
   intros Hin. unfold close_trigger, close_enter_closed. destruct (st_fsm s) eqn:Efs; try hasc.
   - destruct (runt s); hasc.
-  - right. unfold RetsClose. ext_tac. fsimpl. repeat split; auto.
+  - right. cc_cases s; (unfold RetsClose; ext_tac; fsimpl; repeat split; simpl; auto 8).
 Qed.
 
 Lemma own_enter_close s t :
@@ -1888,8 +1899,9 @@ Proof.
     + right. eapply RetsClose_pre; eauto.
   - (* C_WaitRunFinished *) destruct (run_finished s) as [[|]|]; auto. apply own_close_trigger. auto.
   - (* C_WaitRunTask *) unfold close_enter_closed. destruct (runt s); auto. hasc.
-  - (* C_G4 *) right. unfold RetsClose. ext_tac. fsimpl.
-    simpl in Hok. destruct (st_fsm s); try discriminate. repeat split; auto.
+  - (* C_G4 *) right. simpl in Hok.
+    cc_cases s; (unfold RetsClose; ext_tac; fsimpl;
+                 destruct (st_fsm s); try discriminate; repeat split; simpl; auto 8).
 Qed.
 
 Lemma close_task_step s l t :
